@@ -128,8 +128,15 @@ pub mod net {
 // ---- crate::info (only what the adapter structs mention) ----
 pub mod info {
     pub struct ConnectionInfo<A> { pub local_addr: A, pub remote_addr: A }
-    /// stand-in for `crate::info::HasConnectionInfo` (bound on the `Stream` wrappers; no method is called here)
-    pub trait HasConnectionInfo { type Addr; }
+    /// stand-in for `crate::info::HasConnectionInfo` (bound on the `Stream` wrappers; only the constructors call `info()`)
+    pub trait HasConnectionInfo {
+        type Addr;
+        /// `info()`: the connection info of the transport (a query, no I/O on the byte stream); what it answers is
+        /// an uninterpreted attribute of the value
+        spec fn info_of(&self) -> ConnectionInfo<Self::Addr>;
+        fn info(&self) -> (r: ConnectionInfo<Self::Addr>)
+            ensures r == self.info_of();
+    }
 }
 // ---- the TLS streams of the client (src/client/conn/stream/tls.rs) and of the server (src/server/conn/tls/mod.rs):
 // handshake state machines over tokio-rustls, outside this unit (C12 / C20 look at how they are *built*).  Here
@@ -154,6 +161,12 @@ pub mod server_tls {
     /// crate::info::tls::TlsConnectionInfoReciever (a field the server `Stream` carries along)
     #[verifier::external_body]
     pub struct TlsConnectionInfoReciever { _p: () }
+    impl TlsConnectionInfoReciever {
+        /// a receiver that will never see TLS info (plain connections)
+        pub uninterp spec fn is_empty(&self) -> bool;
+        #[verifier::external_body]
+        pub fn empty() -> (r: Self) ensures r.is_empty() { unimplemented!() }
+    }
 }
 
 /// src/stream/unix.rs `UnixAddr` (a camino path inside): opaque, the adapters only carry it
